@@ -38,9 +38,9 @@ Print Assumptions C09_safe_join_rejects_absolute.
    below it — except os.makedirs(dirname(temp_dir)), a no-op on the existing temp root, which an
    empty member name triggers *)
 Theorem C09_7z_events_confined :
-  forall cwd base dec okd okw skip max_mem host h e,
+  forall cwd base dec okd okw skip max_mem host dsize h e,
     normal_base cwd base = true ->
-    In e (run_7z cwd base dec okd okw skip max_mem host h) ->
+    In e (run_7z cwd base dec okd okw skip max_mem host dsize h) ->
     confined_b base (ev_path e) = true \/ e = Mkdirs (dirname base).
 Proof. exact run_7z_events_ok. Qed.
 Print Assumptions C09_7z_events_confined.
@@ -51,10 +51,10 @@ Print Assumptions C09_normal_base_satisfiable.
 
 (* ---- every path opened for reading was written by this extraction (repaired code) *)
 Theorem C09_reads_subset_writes :
-  forall cwd base dec okd okw skip max_mem host h p,
+  forall cwd base dec okd okw skip max_mem host dsize h p,
     normal_base cwd base = true -> fresh base host = true ->
-    In p (reads (run_7z cwd base dec okd okw skip max_mem host h)) ->
-    In p (writes (run_7z cwd base dec okd okw skip max_mem host h)) /\ confined_b base p = true.
+    In p (reads (run_7z cwd base dec okd okw skip max_mem host dsize h)) ->
+    In p (writes (run_7z cwd base dec okd okw skip max_mem host dsize h)) /\ confined_b base p = true.
 Proof. exact run_7z_reads_written. Qed.
 Print Assumptions C09_reads_subset_writes.
 
@@ -141,22 +141,32 @@ Print Assumptions C09_ignored_props_inert.
    no file-system event at all: the whole run equals the run on the header with those entries removed —
    for every header, decoder, OS failure pattern, skip function and host *)
 Theorem C09_streamless_entries_inert :
-  forall cwd base dec okd okw skip max_mem host h,
-    run_7z cwd base dec okd okw skip max_mem host h
-    = run_7z cwd base dec okd okw skip max_mem host (drop_streamless h).
+  forall cwd base dec okd okw skip max_mem host dsize h,
+    run_7z cwd base dec okd okw skip max_mem host dsize h
+    = run_7z cwd base dec okd okw skip max_mem host dsize (drop_streamless h).
 Proof. exact run_7z_drop. Qed.
 Print Assumptions C09_streamless_entries_inert.
 
 (* hence: no write (or any other event) outside the private directory can come from them *)
 Theorem C09_streamless_no_write_outside :
-  forall cwd base dec okd okw skip max_mem host h e,
+  forall cwd base dec okd okw skip max_mem host dsize h e,
     normal_base cwd base = true ->
-    In e (run_7z cwd base dec okd okw skip max_mem host h) ->
-    In e (run_7z cwd base dec okd okw skip max_mem host (drop_streamless h))
+    In e (run_7z cwd base dec okd okw skip max_mem host dsize h) ->
+    In e (run_7z cwd base dec okd okw skip max_mem host dsize (drop_streamless h))
     /\ (confined_b base (ev_path e) = true \/ e = Mkdirs (dirname base)).
 Proof.
-  intros cwd base dec okd okw skip max_mem host h e Hn H. split.
+  intros cwd base dec okd okw skip max_mem host dsize h e Hn H. split.
   - rewrite <- run_7z_drop. exact H.
-  - exact (run_7z_events_ok _ _ _ _ _ _ _ _ _ _ Hn H).
+  - exact (run_7z_events_ok _ _ _ _ _ _ _ _ _ _ _ Hn H).
 Qed.
 Print Assumptions C09_streamless_no_write_outside.
+
+(* ---- size on disk: a path whose file on disk exceeds the limit is never opened for reading (hence its entry
+   never produces a result) — whatever wrote the file: `dsize` is an arbitrary function, so this covers a
+   same-named later entry overwriting an earlier one, and any other writer *)
+Theorem C09_oversize_on_disk_never_read :
+  forall cwd base dec okd okw skip max_mem host dsize h p,
+    normal_base cwd base = true ->
+    In p (reads (run_7z cwd base dec okd okw skip max_mem host dsize h)) -> dsize p <= max_mem.
+Proof. exact run_7z_reads_within_limit. Qed.
+Print Assumptions C09_oversize_on_disk_never_read.
